@@ -37,7 +37,7 @@ static const struct { double v; const char * txt; } fpvals[] = {
     { 0.5, "0.5" }, { 1.25, "1.25" }, { -2.75, "-2.75" }, { 1024, "1024" }, { 0.125, "0.125" }, { 3, "3" }, { 42.5, "42.5" }, { -0.375, "-0.375" }, { 100, "100" }, { 0, "0" }, { -7, "-7" }, { 65536.5, "65536.5" } };
 #define NFP (sizeof fpvals / sizeof fpvals[0])
 static const char * const texts[] = { "", "abc", "a\"b", "\"", "\"\"", "semi;colon", "com,ma", "new\nline", "it's", "x" };
-static const char * const mnems[] = { "ABC", "MIN", "X1_Y", "0", "VOLT" };
+static const char * const mnems[] = { "ABC", "MIN", "X1_Y", "0", "VOLT", "", "" }; /* character data may be empty: an item all the same (it is counted, separated and makes its unit a responder) */
 static const char blockdata[] = "\n;\",#0\x00\xff\x80 abcdefghijklmnopqrstuvwxyz0123456789";
 
 static uint16_t long_array[700];
@@ -64,7 +64,7 @@ static void gen_out(vh_rng_t * rng, vh_out_t * o, vh_buf_t * exp) {
         case 5: o->kind = VO_UINT16; o->base = (int8_t) bases[vh_below(rng, 4)]; o->u = (uint16_t) r; enc_unsigned(exp, (uint16_t) r, o->base); break;
         case 6: o->kind = VO_BOOL; o->u = r & 1; vh_buf_addc(exp, (r & 1) ? '1' : '0'); break;
         case 7: { const char * t = texts[vh_below(rng, sizeof texts / sizeof texts[0])]; o->kind = VO_TEXT; o->data = t; o->len = strlen(t); enc_text(exp, t); break; }
-        case 8: { const char * t = mnems[vh_below(rng, sizeof mnems / sizeof mnems[0])]; o->kind = VO_MNEM; o->data = t; o->len = strlen(t); vh_buf_adds(exp, t); break; }
+        case 8: { const char * t = mnems[vh_below(rng, sizeof mnems / sizeof mnems[0])]; o->kind = VO_MNEM; o->data = t; o->len = strlen(t); vh_buf_adds(exp, t); if (!*t) vh_count("items.empty_character_data", 1); break; }
         case 9: { size_t n = vh_below(rng, sizeof blockdata); o->kind = VO_BLOCK; o->data = blockdata; o->len = n; enc_block(exp, blockdata, n); break; }
         case 10: { size_t n = vh_below(rng, sizeof blockdata); o->kind = VO_BLOCK_STREAM; o->data = blockdata; o->len = n; o->split[0] = (uint16_t) vh_below(rng, 5); o->split[1] = (uint16_t) vh_below(rng, 20); o->split[2] = (uint16_t) vh_below(rng, 3); enc_block(exp, blockdata, n); break; }
         case 11: { int k = (int) vh_below(rng, NFP); o->kind = VO_DOUBLE; o->d = fpvals[k].v; vh_buf_adds(exp, fpvals[k].txt); break; }
@@ -340,7 +340,7 @@ static void p1_run(uint64_t idx, vh_rng_t * rng) {
 int main(int argc, char ** argv) {
     static const vh_phase_t phases[] = { { "messages", p0_count, p0_run }, { "abandoned and re-entered parses", p1_count, p1_run } };
     vh_scribble_chunk_in_callbacks(1); vh_decoy_enable(7); vh_require("decoy.messages_run_on_a_second_context"); vh_require("items.long_ascii_array"); vh_require("abandoned.message_after_a_parse_that_never_finished"); vh_require("reentrant.line_parsed_from_the_flush_callback"); vh_require("status.service_request_raised_during_the_message"); vh_require("nested.other_context_parsed_before_first_result"); vh_require("nested.other_context_parsed_on_handler_entry"); vh_require("msg.with_response"); vh_require("msg.nothing_responds"); vh_require("msg.two_or_more_responders");
-    vh_require("units.accepted_by_an_entry_without_handler"); vh_require("shape.responder_then_silent_unit"); vh_require("shape.silent_unit_then_responder"); vh_require("shape.fails_after_partial_output");
+    vh_require("units.accepted_by_an_entry_without_handler"); vh_require("items.empty_character_data"); vh_require("shape.responder_then_silent_unit"); vh_require("shape.silent_unit_then_responder"); vh_require("shape.fails_after_partial_output");
     vh_require("shape.query_emitting_nothing"); vh_require("shape.query_failing_before_output"); vh_require("shape.single_partial_failure");
     return vh_main(argc, argv, "C06", phases, 2);
 }
